@@ -583,7 +583,27 @@ func throttle(r *rep.Report, rng *rand.Rand, n int) {
 			go func(s int) {
 				defer wg.Done()
 				<-gate
-				err := t.Submit(func() error { atomic.AddInt64(&runs[s], 1); return nil })
+				// one submitted function in eight panics (the panic is the submitter's to deal with)
+				panics := run%2 == 1 && s%8 == 3
+				var err error
+				func() {
+					defer func() {
+						if x := recover(); x != nil {
+							err = fmt.Errorf("panicked: %v", x)
+						}
+					}()
+					err = t.Submit(func() error {
+						atomic.AddInt64(&runs[s], 1)
+						if panics {
+							panic("the submitted function panics")
+						}
+						return nil
+					})
+				}()
+				if panics && err != nil && strings.HasPrefix(err.Error(), "panicked") {
+					res[s] = "ran" // it ran (once) and panicked
+					return
+				}
 				switch err {
 				case nil:
 					res[s] = "ran"
